@@ -425,551 +425,4 @@ Lemma nat_eqb_z m : 0 <= m -> Nat.eqb (Z.to_nat m) 0 = (m =? 0).
 Proof. intros. destruct (Z.eq_dec m 0) as [-> | Hne]; [reflexivity|].
   assert (E : (m =? 0) = false) by lia. rewrite E. apply Nat.eqb_neq. lia. Qed.
 
-Lemma mod_add_small s p L : 0 < L -> 0 <= p -> s mod L + p < L -> (s + p) mod L = s mod L + p.
-Proof.
-  intros HL Hp Hlt. pose proof (Z.mod_pos_bound s L HL). pose proof (Z.div_mod s L ltac:(lia)).
-  symmetry. apply (Z.mod_unique_pos (s + p) L (s / L) (s mod L + p)); lia.
-Qed.
-
-(* increment_simple_rowgroup_ctr after the optional pre-read: counter bump, optional rows_to_go reset, remainder read *)
-Lemma increment_core s pend exact st rows :
-  Inv s pend exact st -> merged2v g = false -> 0 <= rows ->
-  (s mod gv g = 0 \/ rows < gv g) -> s mod gL g + rows < gL g -> s + rows < gH g ->
-  let st1 := mkS (scan st + (rows - rows mod gv g)) (bfull st) (rgctr st + rows / gv g) (imcu st) (bufrow st)
-                 (nro st) (rtg st) (cbuf st) (sfull st) (spare st) in
-  let st1' := if gfx4 g && negb (gmerged g) then set_rtg_now g st1 else st1 in
-  let st2 := read_and_discard_s g (Z.to_nat (rows mod gv g)) st1' in
-  scan st2 = s + rows /\
-  Inv (s + rows) ((pend || (negb (bfull st) && (0 <? rows / gv g))) && (rows mod gv g =? 0))
-      (if gfx4 g && negb (gmerged g) then true else exact && (rows / gv g =? 0)) st2.
-Proof.
-  intros HI Em2 Hrows Hal Hin HltH. cbv zeta.
-  set (q := rows / gv g). set (m := rows mod gv g).
-  assert (Hqm : rows = gv g * q + m /\ 0 <= m < gv g /\ 0 <= q).
-  { unfold q, m. pose proof (Z.div_mod rows (gv g)). pose proof (Z.mod_pos_bound rows (gv g)).
-    assert (0 <= rows / gv g) by (apply Z.div_pos; lia). lia. }
-  destruct Hqm as (Hqm & Hm & Hq).
-  replace (rows - m) with (gv g * q) by lia.
-  assert (Hal' : s mod gv g = 0 \/ q = 0).
-  { destruct Hal as [A | A]; [left; assumption|]. right. unfold q. apply Z.div_small. lia. }
-  pose proof (bump_ok s pend exact st q HI Em2 Hq Hal' ltac:(nia) ltac:(nia)) as HB.
-  destruct (gfx4 g && negb (gmerged g)) eqn:E4.
-  - destruct (set_rtg_ok _ _ _ _ HB) as (_ & HB').
-    destruct (rad_ok (Z.to_nat m) (s + gv g * q) _ _ _ HB' ltac:(lia)) as (A & B).
-    rewrite Z2Nat.id in A, B by lia. rewrite nat_eqb_z in B by lia.
-    replace (s + gv g * q + m) with (s + rows) in A, B by lia.
-    split; [assumption|]. apply B. lia.
-  - destruct (rad_ok (Z.to_nat m) (s + gv g * q) _ _ _ HB ltac:(lia)) as (A & B).
-    rewrite Z2Nat.id in A, B by lia. rewrite nat_eqb_z in B by lia.
-    replace (s + gv g * q + m) with (s + rows) in A, B by lia.
-    split; [assumption|]. apply B. lia.
-Qed.
-
-(* rows of the current row group that increment_simple_rowgroup_ctr reads first (repair of hazard 2) *)
-Definition pre_rows (r rows : Z) : Z :=
-  if gfx2 g && negb (gmerged g) && negb (r =? 0) then Z.min (gv g - r) rows else 0.
-
-(* increment_simple_rowgroup_ctr inside an iMCU row *)
-Lemma increment_ok s pend exact st rows :
-  Inv s pend exact st -> 0 <= rows ->
-  (merged2v g = false -> s mod gv g = 0 \/ rows < gv g \/ gfx2 g && negb (gmerged g) = true) ->
-  s mod gL g + rows < gL g -> s + rows < gH g ->
-  let p := pre_rows (s mod gv g) rows in
-  scan (increment_s g st rows) = s + rows /\
-  Inv (s + rows)
-      (if merged2v g then pend && (rows =? 0)
-       else (pend || (negb (bfull st) && (0 <? (rows - p) / gv g))) && (p =? 0) && ((rows - p) mod gv g =? 0))
-      (if merged2v g then exact
-       else if gfx4 g && negb (gmerged g) then true else exact && ((rows - p) / gv g =? 0))
-      (increment_s g st rows).
-Proof.
-  intros HI Hrows Hal Hin HltH. cbv zeta. unfold increment_s. fold (merged2v g).
-  destruct (merged2v g) eqn:Em2.
-  - destruct (rad_ok (Z.to_nat rows) s pend exact st HI ltac:(lia)) as (A & B).
-    rewrite Z2Nat.id in A, B by lia. rewrite nat_eqb_z in B by lia. split; [assumption|]. apply B. lia.
-  - specialize (Hal eq_refl).
-    pose proof HI as HI0.
-    destruct HI0 as (R & gi & r & Hs & HR & Hgi & Hr & HsH & Hscan & Hrg & Hbt & Hbf & Hrtg & Hsep & Hm2).
-    assert (HL : gL g = gM g * gv g) by reflexivity. assert (HLpos : 0 < gL g) by nia.
-    assert (Hmodv : s mod gv g = r).
-    { symmetry. apply (Z.mod_unique_pos s (gv g) (R * gM g + gi) r); lia. }
-    rewrite Hmodv in *. unfold pre_rows.
-    destruct (gfx2 g && negb (gmerged g)) eqn:E2.
-    + (* the repair of hazard 2 is present and the upsampler is the separate one *)
-      assert (Emg : gmerged g = false) by (destruct (gmerged g); [rewrite andb_false_r in E2; discriminate | reflexivity]).
-      destruct (Hsep Emg) as (Hnro & _).
-      destruct (r =? 0) eqn:Er.
-      * (* on a row group boundary: nothing to read first *)
-        assert (r = 0) by lia. subst r. rewrite Hnro. cbn [Z.eqb negb andb].
-        assert (E : (gv g <? gv g) = false) by lia. rewrite E. cbn [read_and_discard_s Z.to_nat].
-        change (Z.to_nat 0) with 0%nat. cbn [read_and_discard_s]. rewrite !Z.sub_0_r.
-        rewrite Emg. cbn [negb andb]. rewrite andb_true_r.
-        pose proof (increment_core s pend exact st rows HI Em2 Hrows ltac:(left; assumption) Hin HltH) as HC.
-        cbv zeta in HC. rewrite Emg in HC. cbn [negb andb] in HC. exact HC.
-      * (* inside a row group: its remaining rows are read first *)
-        rewrite Hnro, Er. cbn [negb andb]. assert (E : (r <? gv g) = true) by lia. rewrite E.
-        set (p := Z.min (gv g - r) rows).
-        assert (Hp : 0 <= p <= rows /\ p <= gv g - r) by (unfold p; lia).
-        destruct (Z.eq_dec p 0) as [Hp0 | Hp0].
-        { (* rows = 0 *)
-          assert (rows = 0) by (unfold p in Hp0; lia). subst rows. rewrite Hp0.
-          change (Z.to_nat 0) with 0%nat. cbn [read_and_discard_s]. rewrite Z.sub_0_r.
-          rewrite Emg. cbn [negb andb]. cbn [Z.eqb]. rewrite andb_true_r.
-          pose proof (increment_core s pend exact st 0 HI Em2 ltac:(lia) ltac:(right; lia) Hin HltH) as HC.
-          cbv zeta in HC. rewrite Emg in HC. cbn [negb andb] in HC. exact HC. }
-        destruct (rad_ok (Z.to_nat p) s pend exact st HI ltac:(lia)) as (A0 & B0).
-        rewrite Z2Nat.id in A0, B0 by lia. rewrite nat_eqb_z in B0 by lia.
-        assert (E0 : (p =? 0) = false) by lia. rewrite E0 in *. rewrite andb_false_r in B0.
-        specialize (B0 ltac:(lia)).
-        set (st0 := read_and_discard_s g (Z.to_nat p) st) in *.
-        (* after the pre-read the buffer is full: the position is strictly inside the iMCU row *)
-        assert (Hbf0 : bfull st0 = true).
-        { destruct (bfull st0) eqn:Eb; [reflexivity|]. exfalso.
-          destruct B0 as (R' & gi' & r' & Hs' & HR' & Hgi' & Hr' & _ & _ & _ & _ & Hbf' & _).
-          destruct (Hbf' Eb) as (_ & Hr0 & Hg0 & _). specialize (Hg0 eq_refl).
-          destruct (decomp_mod (s + p) R' gi' r' Hs' HR' Hgi' Hr') as (HmL' & _).
-          rewrite (mod_add_small s p (gL g) HLpos ltac:(lia) ltac:(lia)) in HmL'.
-          pose proof (Z.mod_pos_bound s (gL g) HLpos). subst r' gi'. lia. }
-        assert (Hal0 : (s + p) mod gv g = 0 \/ rows - p < gv g).
-        { destruct (Z.eq_dec p (gv g - r)) as [Hpe | Hpe].
-          - left. rewrite Hs, Hpe. replace ((R * gM g + gi) * gv g + r + (gv g - r)) with ((R * gM g + gi + 1) * gv g) by lia.
-            apply Z.mod_mul. lia.
-          - right. unfold p in *. lia. }
-        assert (Hin0 : (s + p) mod gL g + (rows - p) < gL g).
-        { rewrite (mod_add_small s p (gL g) HLpos ltac:(lia) ltac:(lia)). lia. }
-        pose proof (increment_core (s + p) false exact st0 (rows - p) B0 Em2 ltac:(lia) Hal0 Hin0 ltac:(lia)) as HC.
-        cbv zeta in HC. rewrite Hbf0 in HC. cbn [negb andb orb] in HC.
-        replace (s + p + (rows - p)) with (s + rows) in HC by lia.
-        rewrite Emg in HC. rewrite Emg. cbn [negb andb] in HC. cbn [negb andb]. rewrite !andb_false_r. cbn [andb]. exact HC.
-    + (* no pre-read *)
-      cbn [andb]. change (Z.to_nat 0) with 0%nat. cbn [read_and_discard_s]. rewrite !Z.sub_0_r. cbn [Z.eqb]. rewrite andb_true_r.
-      apply (increment_core s pend exact st rows HI Em2 Hrows); auto.
-      destruct Hal as [A | [A | A]]; auto. discriminate.
-Qed.
-
-(* ---------- the abstract tracker and the state ---------- *)
-Definition Rel (a : astate) (st : sst) : Prop :=
-  scan st = a_s a /\ 0 <= a_s a <= gH g /\ (a_s a < gH g -> Inv (a_s a) (a_pend a) (a_exact a) st).
-
-Lemma jdim_small x : 0 <= x < 4294967296 -> jdim x = x.
-Proof. intros. unfold jdim. apply Z.mod_small. lia. Qed.
-
-(* a state sitting exactly on an iMCU row boundary with an empty buffer *)
-Lemma boundary_inv R2 e br nr' rt' cb sf sp :
-  0 <= R2 -> R2 * gL g < gH g ->
-  (gmerged g = false \/ gv g = 2 -> gH g - R2 * gL g <= rt' /\ (e = true -> rt' = gH g - R2 * gL g)) ->
-  (gmerged g = false -> nr' = gv g) ->
-  (merged2v g = true -> sf = false) ->
-  Inv (R2 * gL g) false e (mkS (R2 * gL g) false 0 R2 br nr' rt' cb sf sp).
-Proof.
-  intros HR Hlt Hrt Hnr Hsf. exists R2, 0, 0. simp_st. unfold gL in *.
-  splits; try lia; try discriminate; try reflexivity; auto.
-  all: try (intros _; splits; auto; lia).
-  all: try (intros Hm; rewrite (Hnr Hm); split; [reflexivity | lia]).
-  all: try (intros Hm; rewrite (Hsf Hm); splits; auto; lia).
-Qed.
-
-Lemma ltr_pos_equiv ltr v : 1 <= v -> 0 <= ltr ->
-  (0 <? ltr / v) && (ltr mod v =? 0) = (0 <? ltr) && (ltr mod v =? 0).
-Proof.
-  intros Hv1 Hl. destruct (ltr mod v =? 0) eqn:E; [|rewrite !andb_false_r; reflexivity].
-  rewrite !andb_true_r. pose proof (Z.div_mod ltr v ltac:(lia)).
-  assert (ltr mod v = 0) by lia. assert (0 <= ltr / v) by (apply Z.div_pos; lia).
-  destruct (0 <? ltr) eqn:E1; destruct (0 <? ltr / v) eqn:E2; try reflexivity; nia.
-Qed.
-
-Lemma skip_ok a st n a' :
-  Rel a st -> 0 <= n -> haz_step g a (Skip n) = (0, a') ->
-  exists st', skip_s g st n = (st', a_s a' - a_s a) /\ Rel a' st' /\ a_s a' = Z.min (gH g) (a_s a + n).
-Proof.
-  intros (Hsc & Hs & HI) Hn Hh. unfold haz_step in Hh. unfold skip_s. rewrite Hsc.
-  set (s := a_s a) in *.
-  destruct (gH g <=? s + n) eqn:E1.
-  { inversion Hh; subst a'. cbn [a_s]. eexists. split; [rewrite jdim_small by lia; reflexivity|]. split; [|lia].
-    unfold Rel, set_scan. simp_st. cbn [a_s a_pend a_exact]. splits; try lia. }
-  destruct (n =? 0) eqn:E2.
-  { inversion Hh; subst a'. exists st. assert (n = 0) by lia. subst n. fold s.
-    split; [f_equal; lia|]. split; [unfold Rel; fold s; auto | lia]. }
-  assert (HsH : s < gH g) by lia. specialize (HI HsH).
-  pose proof HI as HI0.
-  destruct HI0 as (R & gi & r & Hs_ & HR & Hgi & Hr & _ & Hscan & Hrg & Hbt & Hbf & Hrtg & Hsep & Hm2).
-  destruct (decomp_mod s R gi r Hs_ HR Hgi Hr) as (HmL & HdL & Hmv_).
-  rewrite Hmv_ in Hh.
-  assert (HL : gL g = gM g * gv g) by reflexivity. assert (HLpos : 0 < gL g) by nia.
-  assert (Hoff : 0 <= gi * gv g + r < gL g) by nia.
-  set (ll := (gL g - s mod gL g) mod gL g) in *.
-  assert (Hll : (gi * gv g + r = 0 /\ ll = 0) \/ (0 < gi * gv g + r /\ ll = gL g - (gi * gv g + r))).
-  { unfold ll. rewrite HmL. destruct (Z.eq_dec (gi * gv g + r) 0) as [E | E].
-    - left. split; [assumption|]. rewrite E, Z.sub_0_r. apply Z_mod_same_full.
-    - right. split; [lia|]. apply Z.mod_small. lia. }
-  destruct (n <? ll) eqn:E3.
-  - (* the skip stays inside the current iMCU row *)
-    destruct Hll as [(A & B) | (Hoff0 & Hlleq)]; [lia|].
-    assert (Hal : merged2v g = false -> s mod gv g = 0 \/ n < gv g).
-    { intros Em. rewrite Em in Hh. rewrite Hmv_. destruct ((r =? 0) || (n <? gv g)) eqn:Ec; [lia|]. inversion Hh. }
-    destruct (increment_ok s (a_pend a) (a_exact a) st n HI Hn Hal ltac:(lia) ltac:(lia)) as (Hsc' & HI').
-    exists (increment_s g st n).
-    destruct (merged2v g) eqn:Em.
-    + inversion Hh; subst a'. cbn [a_s]. split; [f_equal; lia|]. split; [|lia].
-      unfold Rel. cbn [a_s a_pend a_exact]. splits; try lia. intros _.
-      replace (a_pend a && (n =? 0)) with false in HI' by (rewrite E2, andb_false_r; reflexivity). exact HI'.
-    + specialize (Hal eq_refl). rewrite Hmv_ in Hal.
-      assert (Ec : ((r =? 0) || (n <? gv g)) = true) by lia. rewrite Ec in Hh.
-      inversion Hh; subst a'. cbn [a_s]. split; [f_equal; lia|]. split; [|lia].
-      unfold Rel. cbn [a_s a_pend a_exact]. splits; try lia. intros _.
-      (* the pending flag is unchanged by the row-group counter bump *)
-      assert (Hp : (a_pend a || (negb (bfull st) && (0 <? n / gv g))) = a_pend a).
-      { destruct (bfull st) eqn:Eb; [cbn [negb andb]; apply orb_false_r|].
-        destruct (Hbf eq_refl) as (_ & Hr0 & C & _). destruct (a_pend a); [reflexivity|].
-        specialize (C eq_refl). lia. }
-      rewrite Hp in HI'.
-      assert (He : (n / gv g =? 0) = (n <? gv g)).
-      { destruct (n <? gv g) eqn:En.
-        - rewrite Z.div_small by lia. reflexivity.
-        - assert (0 < n / gv g) by (apply Z.div_str_pos; lia). lia. }
-      rewrite He in HI'. exact HI'.
-  - (* the skip reaches the end of the current iMCU row *)
-    destruct (a_pend a) eqn:Ep; [inversion Hh|].
-    destruct (merged2v g && (r =? 1)) eqn:Esp; [inversion Hh|].
-    inversion Hh; subst a'. clear Hh. cbn [a_s].
-    set (la := n - ll) in *. set (qq := la / gL g). set (ltr := la mod gL g).
-    assert (Hla : la = gL g * qq + ltr /\ 0 <= ltr < gL g /\ 0 <= qq).
-    { unfold qq, ltr. pose proof (Z.div_mod la (gL g)). pose proof (Z.mod_pos_bound la (gL g)).
-      assert (0 <= la / gL g) by (apply Z.div_pos; unfold la; lia). lia. }
-    destruct Hla as (Hla & Hltr & Hqq).
-    assert (Hltr' : la - qq * gL g = ltr) by lia.
-    assert (Hq' : qq * gL g / gL g = qq) by (rewrite Z.div_mul by lia; reflexivity).
-    (* the iMCU row counter is the one of the row after the boundary *)
-    set (R1 := if gi * gv g + r =? 0 then R else R + 1).
-    assert (HR1 : imcu st = R1 /\ s + ll = R1 * gL g).
-    { unfold R1. destruct Hll as [(A & B) | (A & B)].
-      - assert (E : (gi * gv g + r =? 0) = true) by lia. rewrite E.
-        assert (gi = 0 /\ r = 0) by nia.
-        destruct (bfull st) eqn:Eb.
-        + destruct (Hbt eq_refl) as (_ & _ & C & _). lia.
-        + destruct (Hbf eq_refl) as (C & _). split; [assumption|]. nia.
-      - assert (E : (gi * gv g + r =? 0) = false) by lia. rewrite E.
-        destruct (bfull st) eqn:Eb.
-        + destruct (Hbt eq_refl) as (_ & C & _). split; [assumption|]. nia.
-        + destruct (Hbf eq_refl) as (_ & C & D & _). specialize (D eq_refl). nia. }
-    destruct HR1 as (Him & Hs1).
-    assert (HR1pos : 0 <= R1) by (unfold R1; destruct (gi * gv g + r =? 0); lia).
-    set (R2 := R1 + qq).
-    assert (Hs2 : s + ll + qq * gL g = R2 * gL g) by (unfold R2; nia).
-    assert (Hs2n : R2 * gL g + ltr = s + n) by (unfold la in *; lia).
-    assert (Hmod2 : (R2 * gL g) mod gL g = 0 /\ (R2 * gL g) mod gv g = 0).
-    { split; [apply Z.mod_mul; lia|]. rewrite HL. replace (R2 * (gM g * gv g)) with (R2 * gM g * gv g) by lia.
-      apply Z.mod_mul. lia. }
-    destruct Hmod2 as (Hmod2L & Hmod2v).
-    destruct st as [sc bf rc im br nr rt cb sf sp]. simp_st. simp_st_in Hscan. simp_st_in Him. simp_st_in Hrtg.
-    simp_st_in Hm2. simp_st_in HI. subst sc im.
-    destruct (Bool.bool_dec (gmerged g) true) as [Emg | Emg].
-    + (* merged upsampling: rows_to_go is left alone *)
-      unfold reset_rtg. rewrite Emg. simp_st. rewrite Hltr', Hq', Hs2.
-      set (e2 := a_exact a && (ll + qq * gL g =? 0)).
-      assert (HB : Inv (R2 * gL g) false e2 (mkS (R2 * gL g) false 0 R2 br nr rt cb sf sp)).
-      { apply boundary_inv; [lia | lia | | | ].
-        - intros Hm. destruct (Hrtg Hm) as (A & B). split; [nia|].
-          intros He. unfold e2 in He. apply andb_true_iff in He. destruct He as (He1 & He2).
-          rewrite (B He1). nia.
-        - rewrite Emg. discriminate.
-        - intros Hm. rewrite Hm in Esp. cbn [andb] in Esp. destruct (Hm2 Hm) as (A & _). rewrite A. exact Esp. }
-      replace (R1 + qq) with R2 by reflexivity.
-      destruct (increment_ok _ _ _ _ ltr HB ltac:(lia) ltac:(intros; left; exact Hmod2v) ltac:(lia) ltac:(lia))
-        as (Hsc3 & HI3).
-      set (st3 := increment_s g (mkS (R2 * gL g) false 0 R2 br nr rt cb sf sp) ltr) in *.
-      pose proof HI3 as HI4.
-      eexists. split; [f_equal; lia|]. split; [|lia].
-      unfold Rel. cbn [a_s a_pend a_exact]. fold s. splits; try lia. intros _.
-      rewrite Hs2n in HI4. simp_st_in HI4. cbn [negb andb orb] in HI4.
-      destruct (merged2v g) eqn:Em.
-      * cbn [negb andb]. unfold e2 in HI4.
-        replace (la - ltr) with (qq * gL g) by lia. exact HI4.
-      * cbn [negb andb]. rewrite ltr_pos_equiv in HI4 by lia.
-        eapply Inv_exact_irrelevant; eauto.
-    + (* separate upsampler: next_row_out and rows_to_go are reset *)
-      apply not_true_is_false in Emg. unfold reset_rtg. rewrite Emg. simp_st. rewrite Hltr', Hq', Hs2.
-      assert (Em : merged2v g = false) by (unfold merged2v; rewrite Emg; reflexivity).
-      assert (HB : Inv (R2 * gL g) false false (mkS (R2 * gL g) false 0 R2 br (gv g) (gH g - (s + ll)) cb sf sp)).
-      { apply boundary_inv; [lia | lia | | | ].
-        - intros _. split; [nia|]. discriminate.
-        - reflexivity.
-        - rewrite Em. discriminate. }
-      replace (R1 + qq) with R2 by reflexivity.
-      destruct (increment_ok _ _ _ _ ltr HB ltac:(lia) ltac:(intros; left; exact Hmod2v) ltac:(lia) ltac:(lia))
-        as (Hsc3 & HI3).
-      set (st3 := increment_s g (mkS (R2 * gL g) false 0 R2 br (gv g) (gH g - (s + ll)) cb sf sp) ltr) in *.
-      pose proof (reset_sep_ok _ _ _ _ Emg HI3) as HI4.
-      eexists. split; [f_equal; lia|]. split; [|simp_st; lia].
-      unfold Rel. cbn [a_s a_pend a_exact]. simp_st. fold s. splits; try lia. intros _.
-      rewrite Hs2n in HI4. simp_st_in HI4. rewrite Em in HI4. cbn [negb andb orb] in HI4.
-      rewrite Em. cbn [negb andb]. rewrite ltr_pos_equiv in HI4 by lia. exact HI4.
-Qed.
-
-Lemma rows_of_zero s : rows_of s 0 = [].
-Proof. reflexivity. Qed.
-
-Lemma read_ok a st n a' :
-  Rel a st -> haz_step g a (Read n) = (0, a') ->
-  exists st' cs, read_loop_s g (Z.to_nat n) st n = (st', cs, rows_of (a_s a) (a_s a' - a_s a)) /\
-    Rel a' st' /\ a_s a' = Z.min (gH g) (a_s a + Z.max 0 n) /\
-    Forall (fun c => 1 <= c) cs /\ zsum cs = a_s a' - a_s a.
-Proof.
-  intros (Hsc & Hs & HI) Hh. unfold haz_step in Hh. set (s := a_s a) in *.
-  destruct (n <=? 0) eqn:E1.
-  { cbn [orb] in Hh. inversion Hh; subst a'. fold s. rewrite read_loop_zero by lia.
-    exists st, []. replace (s - s) with 0 by lia. rewrite rows_of_zero.
-    splits; try lia; try reflexivity; [unfold Rel; fold s; auto | constructor]. }
-  destruct (gH g <=? s) eqn:E2.
-  { cbn [orb] in Hh. inversion Hh; subst a'. fold s. rewrite read_loop_bottom by lia.
-    exists st, []. replace (s - s) with 0 by lia. rewrite rows_of_zero.
-    splits; try lia; try reflexivity; [unfold Rel; fold s; auto | constructor]. }
-  cbn [orb] in Hh.
-  destruct (negb (a_exact a) && (gH g <? s + n) && negb (gH g mod gv g =? 0)) eqn:E3; [inversion Hh|].
-  inversion Hh; subst a'. clear Hh. cbn [a_s].
-  assert (HsH : s < gH g) by lia. specialize (HI HsH).
-  assert (Hside : a_exact a = true \/ gH g mod gv g = 0 \/ s + n <= gH g).
-  { destruct (a_exact a); [left; reflexivity|]. cbn [negb andb] in E3.
-    destruct (gH g <? s + n) eqn:E4; [|right; right; lia]. cbn [andb] in E3.
-    right; left. destruct (gH g mod gv g =? 0) eqn:E5; [lia|discriminate]. }
-  destruct (read_loop_ok (Z.to_nat n) s (a_pend a) (a_exact a) st n HI ltac:(lia) ltac:(lia) Hside)
-    as (st' & cs & Hrl & Hsc' & Hall & Hsum & HI').
-  exists st', cs. replace (Z.min (gH g) (s + n) - s) with (Z.min n (gH g - s)) by lia.
-  splits; try assumption; try lia.
-  unfold Rel. cbn [a_s a_pend a_exact]. splits; try lia. intros Hlt. replace (Z.min (gH g) (s + n)) with (s + n) by lia.
-  apply HI'. lia.
-Qed.
-
-Definition op_nonneg (o : op) : Prop := match o with Read _ => True | Skip n => 0 <= n end.
-Definition op_amount (o : op) : Z := match o with Read n => Z.max 0 n | Skip n => n end.
-
-(* what one op must produce when it starts at scanline s *)
-Definition op_result_ok (s : Z) (o : op) (cs : list Z) (rs : list prov) (after : Z) : Prop :=
-  after = Z.min (gH g) (s + op_amount o) /\
-  zsum cs = after - s /\
-  match o with
-  | Read _ => rs = rows_of s (after - s) /\ Forall (fun c => 1 <= c) cs
-  | Skip _ => rs = [] /\ cs = [after - s]
-  end.
-
-Lemma step_ok a st o a' :
-  Rel a st -> op_nonneg o -> haz_step g a o = (0, a') ->
-  exists st' cs rs, step_s g st o = (st', (cs, rs)) /\ Rel a' st' /\ op_result_ok (a_s a) o cs rs (a_s a').
-Proof.
-  intros HR Hnn Hh. destruct o as [n | n]; cbn [step_s].
-  - destruct (read_ok a st n a' HR Hh) as (st' & cs & Hrl & HR' & Hpos & Hall & Hsum).
-    rewrite Hrl. exists st', cs, (rows_of (a_s a) (a_s a' - a_s a)).
-    splits; try assumption; try reflexivity. unfold op_result_ok. cbn [op_amount]. splits; auto.
-  - cbn in Hnn. destruct (skip_ok a st n a' HR Hnn Hh) as (st' & Hsk & HR' & Hpos).
-    rewrite Hsk. exists st', [a_s a' - a_s a], [].
-    splits; try assumption; try reflexivity. unfold op_result_ok. cbn [op_amount zsum]. splits; auto; lia.
-Qed.
-
-Fixpoint trace_ok (s : Z) (ops : list op) (tr : list (Z * list Z * list prov * Z)) : Prop :=
-  match ops, tr with
-  | [], [] => True
-  | o :: t, (before, cs, rs, after) :: tr' => before = s /\ op_result_ok s o cs rs after /\ trace_ok after t tr'
-  | _, _ => False
-  end.
-
-Fixpoint final_pos (s : Z) (ops : list op) : Z :=
-  match ops with [] => s | o :: t => final_pos (Z.min (gH g) (s + op_amount o)) t end.
-
-Lemma run_ok ops : forall a st,
-  Forall op_nonneg ops -> Rel a st -> first_hazard g a ops = 0 ->
-  scan (fst (run_s g st ops)) = final_pos (a_s a) ops /\ trace_ok (a_s a) ops (snd (run_s g st ops)).
-Proof.
-  induction ops as [|o t IH]; intros a st Hnn HR Hfh.
-  - cbn. split; [apply HR | exact I].
-  - inversion Hnn as [|? ? Ho Ht]; subst.
-    cbn [first_hazard] in Hfh. destruct (haz_step g a o) as [h a1] eqn:Eh.
-    destruct (h =? 0) eqn:Eh0; [|lia]. assert (h = 0) by lia. subst h.
-    destruct (step_ok a st o a1 HR Ho Eh) as (st1 & cs & rs & Hst & HR1 & Hres).
-    cbn [run_s]. rewrite Hst.
-    destruct (IH a1 st1 Ht HR1 Hfh) as (A & B).
-    destruct (run_s g st1 t) as [st2 tr] eqn:Er. cbn [fst snd] in *.
-    assert (Hsc : scan st = a_s a) by apply HR. assert (Hsc1 : scan st1 = a_s a1) by apply HR1.
-    assert (Hpos : a_s a1 = Z.min (gH g) (a_s a + op_amount o)) by apply Hres.
-    split.
-    + cbn [final_pos]. rewrite <- Hpos. exact A.
-    + cbn [trace_ok]. rewrite Hsc, Hsc1. splits; auto.
-Qed.
-
-Lemma Rel_init : Rel a_init (s_init g).
-Proof.
-  unfold Rel, a_init, s_init. cbn [a_s a_pend a_exact]. simp_st. splits; try lia.
-  intros HltH. exists 0, 0, 0. simp_st. splits; try lia; try discriminate; try reflexivity.
-  all: try (intros _; splits; auto; lia).
-Qed.
-
-Lemma final_pos_min ops : forall s, 0 <= s <= gH g -> Forall op_nonneg ops ->
-  final_pos s ops = Z.min (gH g) (s + fold_right (fun o acc => op_amount o + acc) 0 ops).
-Proof.
-  induction ops as [|o t IH]; intros s Hs Hnn; cbn [final_pos fold_right]; [lia|].
-  inversion Hnn as [|? ? Ho Ht]; subst.
-  assert (0 <= op_amount o) by (destruct o; cbn in *; lia).
-  assert (Hacc : 0 <= fold_right (fun o acc => op_amount o + acc) 0 t).
-  { clear -Ht. induction t as [|o' t' IH']; cbn; [lia|]. inversion Ht; subst.
-    assert (0 <= op_amount o') by (destruct o'; cbn in *; lia). specialize (IH' H2). lia. }
-  rewrite IH by (try assumption; lia). lia.
-Qed.
-
 End Sched.
-
-(* ------------------------------------------------------------------ *)
-(* statements exported to props/C08.v                                   *)
-(* ------------------------------------------------------------------ *)
-Ltac splits := repeat match goal with |- _ /\ _ => split end.
-Definition geom_ok (g : geom) : Prop :=
-  1 <= gM g /\ 1 <= gv g /\ 0 <= gH g < 4294967296 /\ (gmerged g = true -> gv g = 1 \/ gv g = 2).
-
-Definition total_requested (ops : list op) : Z := fold_right (fun o acc => op_amount o + acc) 0 ops.
-
-(* (scanline at which it was delivered, provenance) of every delivered row of a trace *)
-Fixpoint delivered (tr : list (Z * list Z * list prov * Z)) : list (Z * prov) :=
-  match tr with
-  | [] => []
-  | (before, _, rs, _) :: t => combine (zseq before (length rs)) rs ++ delivered t
-  end.
-
-Definition run_result_ok (g : geom) (ops : list op) : Prop :=
-  let res := run_s g (s_init g) ops in
-  scan (fst res) = Z.min (gH g) (total_requested ops) /\
-  trace_ok g 0 ops (snd res) /\
-  Forall (fun yp => snd yp = ideal_s (fst yp) /\ 0 <= fst yp < gH g) (delivered (snd res)).
-
-Lemma combine_rows_of s k :
-  Forall (fun yp => snd yp = ideal_s (fst yp) /\ s <= fst yp < s + Z.max 0 k)
-         (combine (zseq s (length (rows_of s k))) (rows_of s k)).
-Proof.
-  unfold rows_of. rewrite map_length, zseq_length.
-  assert (Hk : Z.max 0 k = Z.of_nat (Z.to_nat k)) by lia. rewrite Hk. clear Hk.
-  generalize (Z.to_nat k) as n. intros n. revert s.
-  induction n as [|n IH]; intros s; cbn [zseq map combine]; [constructor|].
-  constructor; [cbn; split; [reflexivity|lia]|].
-  eapply Forall_impl; [|apply IH]. intros [y p] (A & B). cbn in *. split; [assumption|lia].
-Qed.
-
-Lemma delivered_ok g ops : forall s tr, Forall op_nonneg ops -> 0 <= s <= gH g -> trace_ok g s ops tr ->
-  Forall (fun yp => snd yp = ideal_s (fst yp) /\ 0 <= fst yp < gH g) (delivered tr).
-Proof.
-  induction ops as [|o t IH]; intros s tr Hnn Hs Htr; destruct tr as [|[[[before cs] rs] after] tr']; cbn in Htr; try contradiction.
-  - constructor.
-  - destruct Htr as (-> & (Haft & Hsum & Ho) & Hrest). cbn [delivered].
-    assert (Hno : op_nonneg o) by (inversion Hnn; assumption).
-    assert (Hnt : Forall op_nonneg t) by (inversion Hnn; assumption).
-    assert (Hamt : 0 <= after - s) by (destruct o; cbn in *; lia).
-    apply Forall_app. split.
-    + destruct o as [n | n].
-      * destruct Ho as (-> & _). eapply Forall_impl; [|apply combine_rows_of].
-        intros [y p] (A & B). cbn in *. split; [assumption|lia].
-      * destruct Ho as (-> & _). constructor.
-    + apply (IH after); [assumption | lia | assumption].
-Qed.
-
-(* Theorem (3)+(4), no-context main controller incl. merged upsampling, for all geometries and all histories
-   without hazard *)
-Theorem skip_read_equals_full_no_hazard :
-  forall g ops, geom_ok g -> Forall op_nonneg ops -> first_hazard g a_init ops = 0 -> run_result_ok g ops.
-Proof.
-  intros g ops (HM & Hv & HH & Hmv) Hnn Hfh. unfold run_result_ok.
-  destruct (run_ok g HM Hv HH Hmv ops a_init (s_init g) Hnn (Rel_init g HM Hv HH Hmv) Hfh) as (A & B).
-  cbn [a_s a_init] in A, B. splits.
-  - rewrite A. rewrite (final_pos_min g HH Hmv ops 0) by (try assumption; lia). unfold total_requested. f_equal.
-  - exact B.
-  - apply (delivered_ok g ops 0); [assumption | lia | exact B].
-Qed.
-
-(* the full statement is false for the code that exists: one witness per hazard class *)
-Definition skip_read_equals_full_full : Prop :=
-  forall g ops, geom_ok g -> Forall op_nonneg ops -> run_result_ok g ops.
-
-Definition wg (M v H : Z) (merged : bool) : geom := mkGeom M v H ((H + M * v - 1) / (M * v)) merged false 1 H H false 1 H false false false false.
-
-Definition bad_row (g : geom) (ops : list op) (y : Z) (p : prov) : Prop :=
-  In (y, p) (delivered (snd (run_s g (s_init g) ops))) /\ p <> ideal_s y.
-
-Lemma witness_geom_ok M v H merged :
-  (1 <=? M) && (1 <=? v) && (0 <=? H) && (H <? 4294967296) && (negb merged || (v =? 1) || (v =? 2)) = true ->
-  geom_ok (wg M v H merged).
-Proof. unfold geom_ok, wg. cbn [gM gv gH gmerged]. intros Hb. splits; lia. Qed.
-
-(* hazard 1: two skips in a row, the first one ends inside an iMCU row without reading a line of it *)
-Lemma refuted_skip_after_skip :
-  let g := wg 2 1 30 false in let ops := [Skip 3; Skip 1; Read 1] in
-  geom_ok g /\ Forall op_nonneg ops /\ first_hazard g a_init ops = 1 /\ bad_row g ops 4 (2, -1).
-Proof.
-  cbv zeta. splits.
-  - apply witness_geom_ok. reflexivity.
-  - repeat constructor; cbn; lia.
-  - vm_compute. reflexivity.
-  - split; [vm_compute; auto | discriminate].
-Qed.
-
-(* hazard 2: a skip of >= v rows that starts inside a row group (separate upsampler, v = 2) *)
-Lemma refuted_skip_mid_rowgroup :
-  let g := wg 8 2 60 false in let ops := [Read 1; Skip 2; Read 1] in
-  geom_ok g /\ Forall op_nonneg ops /\ first_hazard g a_init ops = 2 /\ bad_row g ops 3 (1, -1).
-Proof.
-  cbv zeta. splits.
-  - apply witness_geom_ok. reflexivity.
-  - repeat constructor; cbn; lia.
-  - vm_compute. reflexivity.
-  - split; [vm_compute; auto | discriminate].
-Qed.
-
-(* hazard 3: merged 2v upsampling, the spare row is occupied when a skip reaches the iMCU row end
-   (this is "djpeg -fast -skip 1,20" of the ctest suite) *)
-Lemma refuted_merged_spare_row :
-  let g := wg 8 2 53 true in let ops := [Read 1; Skip 20; Read 1] in
-  geom_ok g /\ Forall op_nonneg ops /\ first_hazard g a_init ops = 3 /\ bad_row g ops 21 (22, -1).
-Proof.
-  cbv zeta. splits.
-  - apply witness_geom_ok. reflexivity.
-  - repeat constructor; cbn; lia.
-  - vm_compute. reflexivity.
-  - split; [vm_compute; auto | discriminate].
-Qed.
-
-(* hazard 4: rows_to_go is not maintained by the skip; a read with max_lines >= 2 at the last row of an
-   image of odd height returns 2 rows and output_scanline passes output_height *)
-Lemma refuted_rows_to_go :
-  let g := wg 8 2 53 true in let ops := [Skip 21; Read 40] in
-  geom_ok g /\ Forall op_nonneg ops /\ first_hazard g a_init ops = 4 /\
-  scan (fst (run_s g (s_init g) ops)) = gH g + 1.
-Proof.
-  cbv zeta. splits.
-  - apply witness_geom_ok. reflexivity.
-  - repeat constructor; cbn; lia.
-  - vm_compute. reflexivity.
-  - vm_compute. reflexivity.
-Qed.
-
-Lemma refuted_rows_to_go_sep :
-  let g := wg 8 2 53 false in let ops := [Read 2; Skip 2; Read 60] in
-  geom_ok g /\ Forall op_nonneg ops /\ first_hazard g a_init ops = 4 /\
-  scan (fst (run_s g (s_init g) ops)) = gH g + 1.
-Proof.
-  cbv zeta. splits.
-  - apply witness_geom_ok. reflexivity.
-  - repeat constructor; cbn; lia.
-  - vm_compute. reflexivity.
-  - vm_compute. reflexivity.
-Qed.
-
-Theorem skip_read_equals_full_refuted : ~ skip_read_equals_full_full.
-Proof.
-  intros Hfull.
-  destruct refuted_skip_after_skip as (Hg & Hnn & _ & (Hin & Hne)).
-  destruct (Hfull _ _ Hg Hnn) as (_ & _ & Hall).
-  rewrite Forall_forall in Hall. destruct (Hall _ Hin) as (A & _). cbn [fst snd] in A. apply Hne. exact A.
-Qed.
-
-(* non-vacuity: hazard-free histories exist that exercise every branch of the skip code *)
-Lemma example_no_hazard_sep :
-  first_hazard (wg 8 2 100 false) a_init [Skip 5; Read 1; Skip 10; Read 3; Skip 33; Read 2; Skip 200; Read 5] = 0.
-Proof. vm_compute. reflexivity. Qed.
-
-Lemma example_no_hazard_merged :
-  first_hazard (wg 8 2 101 true) a_init [Read 3; Skip 3; Read 2; Skip 40; Read 7; Skip 1; Read 9; Skip 500] = 0.
-Proof. vm_compute. reflexivity. Qed.
